@@ -1,30 +1,54 @@
 #!/bin/bash
 # Re-validates every kept seeded mutant against the CURRENT /repo and the CURRENT checks:
-#  - the patch applies to /repo HEAD, the repository's suite stays green with it (scratch worktree),
-#  - ./check <property> quick exits 1 with a VIOLATION line while it is applied to /repo,
-#  - /repo is reverted afterwards.
+#  phase 1 (parallel, scratch worktrees under /tmp): the patch applies to /repo HEAD and the
+#           repository's suite stays green with it;
+#  phase 2 (serial): ./check <property> quick exits 1 with a VIOLATION line while the patch is
+#           applied to /repo; /repo is reverted straight afterwards.
 # usage: tools/check_seeded.sh [name-prefix]
 set -u
 export CARGO_NET_OFFLINE=true
-WT=/tmp/seeded-wt
-git -C /repo worktree remove --force $WT 2>/dev/null
-git -C /repo worktree add -q $WT HEAD || exit 2
 if ! git -C /repo diff --quiet; then echo "/repo is dirty"; exit 2; fi
-FAILS=0
-for d in /verif/seeded/${1:-}*/; do
-  n=$(basename "$d"); prop=$(python3 -c "import json;print(json.load(open('$d/meta.json'))['property'])")
-  git -C $WT checkout -q -- . 
-  if ! git -C $WT apply "$d/patch.diff" 2>/dev/null; then echo "$n: PATCH DOES NOT APPLY"; FAILS=$((FAILS+1)); continue; fi
-  suite=$(cd $WT && CARGO_TARGET_DIR=/tmp/confirm-target cargo test --workspace --no-fail-fast --offline 2>&1 | grep -E '^test result: .* [1-9][0-9]* passed' | head -1)
-  git -C $WT checkout -q -- .
-  git -C /repo apply "$d/patch.diff"
-  (cd /verif && ./check "$prop" quick > /tmp/seeded-check.log 2>&1); code=$?
-  git -C /repo checkout -q -- .
-  viol=$(grep -c '^VIOLATION' /tmp/seeded-check.log)
-  echo "$n: suite[$suite] check $prop exit=$code violations=$viol"
-  case "$suite" in *"32 passed; 0 failed"*) ;; *) echo "   SUITE NOT GREEN WITH MUTANT"; FAILS=$((FAILS+1));; esac
-  if [ "$code" != "1" ] || [ "$viol" = "0" ]; then echo "   NOT DETECTED"; FAILS=$((FAILS+1)); fi
+JOBS=${SEEDED_JOBS:-5}
+OUT=/tmp/seeded-phase1; rm -rf $OUT; mkdir -p $OUT
+ls -d /verif/seeded/${1:-}*/ | xargs -n1 basename > $OUT/list
+phase1() {
+  slot=$1; shift
+  WT=/tmp/seeded-wt-$slot
+  git -C /repo worktree remove --force $WT 2>/dev/null
+  git -C /repo worktree add -q --detach $WT HEAD || exit 2
+  for n in "$@"; do
+    d=/verif/seeded/$n
+    git -C $WT checkout -q -- .
+    if ! git -C $WT apply "$d/patch.diff" 2>/dev/null; then echo "PATCH DOES NOT APPLY" > $OUT/$n.suite; continue; fi
+    (cd $WT && CARGO_TARGET_DIR=/tmp/seeded-target-$slot cargo test --workspace --no-fail-fast --offline 2>&1 | grep -E '^test result: .* [1-9][0-9]* passed|^error' | head -1) > $OUT/$n.suite
+  done
+  git -C /repo worktree remove --force $WT
+  rm -rf /tmp/seeded-target-$slot
+}
+for slot in $(seq 1 $JOBS); do
+  phase1 $slot $(awk -v s=$slot -v j=$JOBS 'NR % j == s % j' $OUT/list) &
 done
-git -C /repo worktree remove --force $WT
+wait
+FAILS=0
+for n in $(cat $OUT/list); do
+  d=/verif/seeded/$n
+  prop=$(python3 -c "import json;print(json.load(open('$d/meta.json'))['property'])")
+  checks=$(python3 -c "import json;m=json.load(open('$d/meta.json'));print(' '.join(k for k,v in m.get('check_results_with_mutant',{}).items() if 'VIOLATION' in v) or m['property'])")
+  suite=$(cat $OUT/$n.suite 2>/dev/null)
+  if [ "$suite" = "PATCH DOES NOT APPLY" ]; then echo "$n: PATCH DOES NOT APPLY"; FAILS=$((FAILS+1)); continue; fi
+  git -C /repo apply "$d/patch.diff" || { echo "$n: PATCH DOES NOT APPLY to /repo"; FAILS=$((FAILS+1)); continue; }
+  res=""; detected=0
+  for c in $checks; do
+    (cd /verif && ./check "$c" quick > /tmp/seeded-check.log 2>&1); code=$?
+    viol=$(grep -c '^VIOLATION' /tmp/seeded-check.log)
+    res="$res $c:exit=$code,violations=$viol"
+    if [ "$code" = "1" ] && [ "$viol" != "0" ]; then detected=1; fi
+    if [ "$c" = "$prop" ] && [ $detected = 1 ]; then break; fi
+  done
+  git -C /repo checkout -q -- .
+  echo "$n: suite[$suite] $res"
+  case "$suite" in *"32 passed; 0 failed"*) ;; *) echo "   SUITE NOT GREEN WITH MUTANT"; FAILS=$((FAILS+1));; esac
+  if [ $detected = 0 ]; then echo "   NOT DETECTED"; FAILS=$((FAILS+1)); fi
+done
 echo "seeded mutants re-validated; problems: $FAILS"
 exit $FAILS
